@@ -122,7 +122,14 @@ pub fn apply_faults(spec: &Spec) -> (World, Option<serde_json::Value>) {
                 }
             }
             LinkFault::ByUnauthorizedFunctionary(n) => {
-                if let Some(u) = pick(&unauthorized, *n) {
+                // in a large key table prefer an unauthorised key whose rank (by key id) is congruent modulo 64 to the
+                // rank of an authorised one - where position-indexed tables of 64 would alias
+                let mut ranked: Vec<String> = table.iter().map(key_id_str).collect();
+                ranked.sort();
+                let rank = |k: &KeySpec| ranked.iter().position(|x| *x == key_id_str(k)).unwrap_or(0);
+                let auth_ranks: Vec<usize> = step.pubkeys.iter().filter(|k| table.iter().any(|t| key_id_str(t) == key_id_str(k))).map(|k| rank(k) % 64).collect();
+                let aliasing: Vec<KeySpec> = unauthorized.iter().filter(|u| table.len() > 64 && auth_ranks.contains(&(rank(u) % 64))).cloned().collect();
+                if let Some(u) = pick(&aliasing, *n).or_else(|| pick(&unauthorized, *n)) {
                     w.links[i] = LinkFile { step: step.name.clone(), filed_under: u.clone(), name_field: None, symlink_store: false, body: Body::Link { link: base_link, sigs: vec![SigEntry::good(&u)], tamper: None } };
                 }
             }
